@@ -233,7 +233,7 @@ EXCLUDED = {
 		"combine", "strptime", "astimezone", "timestamp"},   # the last two depend on the local time zone database
 }
 METHOD_VALUES = {
-	"str": ["abc", "a b c", "", "Abc", "  pad ", "tab\tx", "l1\nl2", "10", "éa", "{}"],
+	"str": ["abc", "a b c", "", "Abc", "  pad ", "tab\tx", "l1\nl2", "10", "éa", "{}", "\u00b2", "\u2460", "\u2075\u2076", "\u0663\u0664", "\u00bd", "\u216b", "\u01c5x", "\u00df"],
 	"int": [0, 1, -1, 5, 255, 2**40, -7],
 	"float": [0.0, 1.5, -2.25, 3.0, 1e10, -0.0],
 	"bool": [True, False],
